@@ -171,9 +171,9 @@ struct Ctx
 
 static void runSpace(const std::string &name, const vf::Args &a, vf::Report &rep)
 {
-    SpaceCfg c = makeSpace(name, a.thorough() ? 3 : 2);
+    SpaceCfg c = makeSpace(name, 3);
     // lattice enlarged by states the space itself produces between lattice members (rounding cases the hand-written values miss)
-    densify(c, a.thorough() ? 240 : c.lattice.size() + 40);
+    densify(c, a.thorough() ? 320 : std::max<size_t>(110, c.lattice.size() + 40));
     const std::vector<double> &TS = a.thorough() ? TS_THOROUGH : TS_QUICK;
     Pool P(c);
     Ctx X(c);
